@@ -125,4 +125,36 @@ def recursive (w : World) (cfg : Cfg) (kind : Kind) (o rel : String) (maxDepth d
         else if avail.isEmpty then [.ok false false taint]
         else [bfs w cfg kind typ rel avail maxDepth bfsFuel d right.passed [] none taint]
 
+/-! ### applicability, as a checkable predicate (the hypothesis of `recursive_sem`) -/
+
+/-- the self-referencing userset restriction `typ#rel` -/
+def isSelf (typ rel : String) (x : Restr) : Bool := x.typ = typ && x.rel = rel
+
+/-- the recursive edge occurs only in directly assignable leaves under unions; everything else in the
+rewrite is weight one for the subject's type (`UsersetUseRecursiveResolver`) -/
+def recRewrite (w : World) (typ rel : String) : Nat → List Restr → Rewrite → Bool
+  | 0, _, _ => false
+  | fuel + 1, restrs, rw =>
+    match rw with
+    | .this =>
+      restrs.all (fun x => x.rel = "" || isSelf typ rel x || ((w.model.findRel x.typ x.rel).isSome && pathFalse w x.typ x.rel))
+    | .union cs => cs.all (fun c => recRewrite w typ rel fuel restrs c || w1Rewrite w typ fuel restrs c)
+    | rw => w1Rewrite w typ (fuel + 1) restrs rw
+
+/-- … and the rewrite really has a directly assignable leaf at union level (where the recursive edge lives) -/
+def recHasThis (w : World) (typ rel : String) : Nat → List Restr → Rewrite → Bool
+  | 0, _, _ => false
+  | fuel + 1, restrs, rw =>
+    match rw with
+    | .this => true
+    | .union cs => cs.any (fun c => recRewrite w typ rel fuel restrs c && recHasThis w typ rel fuel restrs c)
+    | _ => false
+
+def recRel (w : World) (typ rel : String) : Bool :=
+  rel ≠ "" &&
+  (match w.model.findRel typ rel with
+   | none => false
+   | some rd => w.aux.get s!"path:{typ}#{rel}" true && recRewrite w typ rel leftFuel rd.restrs rd.rewrite &&
+      recHasThis w typ rel leftFuel rd.restrs rd.rewrite)
+
 end OpenFGAVerif.RecursiveV1
